@@ -159,6 +159,21 @@ CLAIMS = {
              "the real main(), both formats parsed back and compared with the baseline run.",
         ref="DESIGN.md 4.16", technique="Rocq proof (generic engine + option model, reader tables from source) + option-matrix differential runs of main()",
         note=NOTE + "Modelled, not verified: argparse, open()'s decoding. Tested only: that printed text parses back to the views."),
+    "C03": dict(
+        text="Theorems for EVERY source text, every line of it and every mix of tabs and text: with line_width defined by the "
+             "independent position scanner (tabs = 4-column stops), every token that starts on a line carries that line's number "
+             "and a column <= width + 1, the token starting where the line ends (the NEWLINE token of a code line) sits exactly in "
+             "column width + 1, hence for every L `some token of the line lies beyond column L + 1 <-> width > L` (from the lexer's "
+             "position theorem C09); the model of CheckLineLen reports exactly the lines of a statement holding a token beyond "
+             "column 81, once each.  The compared constants of all seven limit checks (81, 80/81, 25, 26, 5, 4, 5) and structural "
+             "fingerprints of the small checks are regenerated from the source on every run and pinned.  The COMPLETE boundary family "
+             "of the property (every limit, every n in [L-3, L+6], every generated context: kind of line incl. first/interior/last "
+             "block-comment line, position in file, tabs, final newline, nesting, surrounding functions) is evaluated on the "
+             "implementation on every run, and the width specification and the two line-length check models are compared with it.  "
+             "Partial: the counters behind lines/functions/parameters/variables and the block-comment widths are searched "
+             "exhaustively over that family, not proved.",
+        ref="DESIGN.md 4.3", technique="Rocq proof (line width vs token columns from the lexer invariant; check model) + exhaustive boundary-family search",
+        note=NOTE + "Not modelled: scope bookkeeping of the primaries behind the four counters."),
     "C05": dict(
         text="(a) Theorem for every string: the tokenizer model terminates (its fuel, |src|+1 steps each consuming >= 1 raw character, is "
              "never exhausted) and consumes the whole input; that no exception other than the documented iteration cap escapes is "
